@@ -298,6 +298,11 @@ func judge(sc clientx.Sc, run clientx.Run, c Case, res *ev.Result) (nontrivial b
 			bad("write-error-misclassified", fmt.Sprintf("error %v (%T) does not wrap the write failure in *ClientError", run.Err, run.Err))
 		}
 	case cancelled && !sawInjectedRead && !oversize:
+		if c.Fault == "ctx-deadline" && !sc.Kind.IsSerial() && run.Elapsed > ctxTimeout+readTimeout/4 {
+			// the caller's deadline passed at ctxTimeout; the network clients look at the context between polls of 0.5 ms
+			// (the serial client's 30 ms pause after the write does not look at it - nothing is demanded of that here)
+			bad("cancel-noticed-late", fmt.Sprintf("the caller's deadline passed at %v on the virtual clock, the call returned only at %v", ctxTimeout, run.Elapsed))
+		}
 		if !errors.Is(run.Err, ctxErr) {
 			// the cancel is injected together with an empty read, so the client reaches its next context test first
 			bad("cancel-misclassified", fmt.Sprintf("context was cancelled but error is %v (%T)", run.Err, run.Err))
@@ -322,6 +327,12 @@ func judge(sc clientx.Sc, run clientx.Run, c Case, res *ev.Result) (nontrivial b
 			bad("stall-misclassified", fmt.Sprintf("the line went silent after %d of %d reply bytes (the client asks for %d); the call returned %v (%T) after %v, before its read timeout", run.Delivered, len(sc.Reply), sc.Expected, run.Err, run.Err, run.Elapsed))
 		}
 	case timedOut:
+		// "returns within a bounded time": the bound is the client's own read timeout (plus one poll of the transport, plus
+		// the serial client's 30 ms turn-around pause, all on the virtual clock): a call that is still waiting half a read
+		// timeout later has lost track of it
+		if over := run.Elapsed - deadline; over > readTimeout/2 {
+			bad("timeout-overrun", fmt.Sprintf("the line went silent; the read timeout (%v after the write) passed at %v on the virtual clock, the call returned only at %v", readTimeout, deadline, run.Elapsed))
+		}
 		if !isCE {
 			bad("timeout-misclassified", fmt.Sprintf("virtual clock reached the read timeout (%v) but the call returned %v (%T)", run.Elapsed, run.Err, run.Err))
 		}
